@@ -22,4 +22,6 @@ ENTRIES = [
     Entry('rebreak-F22', S, [("        dnkj, dtracer = np.array(data['dnkj']), np.array(data['dtracer'])", "        dnkj, dtracer = data['dnkj'], data['dtracer']")], 'R20.6'),
     Entry('rebreak-F23', S, [('            numSolutes = self.numElements - 1\n            d = np.power(output[:,numSolutes*numSolutes:],3)', '            numSolutes = x.shape[1]\n            d = np.power(output[:,numSolutes*numSolutes:],3)')], 'R20.7'),
     Entry('benign-fit-asarray', S, [("        dnkj, dtracer = np.array(data['dnkj']), np.array(data['dtracer'])", "        dnkj = np.asarray(data['dnkj'])\n        dtracer = np.asarray(data['dtracer'])")], kind='benign'),
+    Entry('fit-on-unique-rows', S, [('        self.drivingForceModels[phase] = self.kernel(xTrain, yTrain, **self.kernelKwargs)', '        xTrain, keep = np.unique(xTrain, axis=0, return_index=True)\n        yTrain = yTrain[keep]\n        self.drivingForceModels[phase] = self.kernel(xTrain, yTrain, **self.kernelKwargs)')], 'R20.9'),
+    Entry('benign-fit-float-cast', S, [('        self.drivingForceModels[phase] = self.kernel(xTrain, yTrain, **self.kernelKwargs)', '        xTrain = xTrain.astype(np.float64)\n        self.drivingForceModels[phase] = self.kernel(xTrain, yTrain, **self.kernelKwargs)')], kind='benign'),
 ]
